@@ -2,6 +2,8 @@ import Falcon.Spec.RefFormat
 import Falcon.Model.KeyCodec
 import Falcon.Gen.Params
 import Falcon.Lemmas.RefFormatEq
+import Falcon.Lemmas.RefSigEq
+import Falcon.Lemmas.CodecRefine
 
 /-!
 # C16 — interoperability with the reference implementation (PQClean)
@@ -117,6 +119,54 @@ theorem reference_reads_our_secret_keys (chk : Bool) (logn N : Nat) (hN : (logn 
   obtain ⟨b, h1, h2⟩ := hrt
   refine ⟨b, h1, ?_⟩
   rw [reference_secret_key_decoder_agrees logn N hN b (skToBytes_bytes chk f g cF b h1), h2]
+
+/-- **signatures, reference → Algorithm 18**: if the reference's `comp_decode` (transcribed from `codec.c`: 32-bit
+    accumulator, pending-bit counter, inner unary loop with the `m > 2047` test, "-0" and trailing-bit checks) returns
+    (x, v) on a byte string, then v bytes were consumed and, when the bytes after them are all zero (a padded signature),
+    Algorithm 18 with the reference's cap decodes the whole string to the same vector — for every byte string, every logn -/
+theorem reference_signature_decoder_sound (logn : Nat) (body : List Nat) (hb : ∀ b ∈ body, b < 256) (x : List Int) (v : Nat)
+    (h : RefSig.compDecode logn body = some (x, v)) :
+    ∃ used rest, body = used ++ rest ∧ v = used.length ∧
+      ((∀ b ∈ rest, b = 0) → Spec.decompressRef 16 body (2 ^ logn) = some x) :=
+  RefEq.compDecode_sound logn body hb x v h
+
+/-- **signatures, Algorithm 18 → reference**: whatever Algorithm 18 with the reference's cap decodes, `comp_decode`
+    accepts with the same vector, and every byte it leaves unread is zero (what the reference's verifier demands of the
+    padding) -/
+theorem reference_signature_decoder_complete (logn : Nat) (body : List Nat) (hb : ∀ b ∈ body, b < 256) (x : List Int)
+    (h : Spec.decompressRef 16 body (2 ^ logn) = some x) :
+    ∃ used rest, body = used ++ rest ∧ RefSig.compDecode logn body = some (x, used.length) ∧ ∀ b ∈ rest, b = 0 :=
+  RefEq.compDecode_complete logn body hb x h
+
+/-- **every reference signature body, zero-padded, decodes here to the same vector**: the byte-level model of this
+    library's `decompress` (both build modes) accepts what `comp_decode` accepts -/
+theorem reference_signatures_decode_here (chk : Bool) (logn : Nat) (body : List Nat) (hb : ∀ b ∈ body, b < 256)
+    (x : List Int) (v : Nat) (h : RefSig.compDecode logn body = some (x, v)) (hz : ∀ b ∈ body.drop v, b = 0) :
+    Codec.decompress chk body (2 ^ logn) = .ok (some x) := by
+  obtain ⟨used, rest, hbody, hv, himp⟩ := RefEq.compDecode_sound logn body hb x v h
+  have hrest : body.drop v = rest := by rw [hbody, hv]; exact List.drop_left' rfl
+  rw [hrest] at hz
+  have h16 := himp hz
+  have hn : 2 ^ logn ≠ 0 := Nat.pos_iff_ne_zero.mp (Nat.pow_pos (by decide))
+  rw [Codec.decompress_eq_spec chk body hb (2 ^ logn) (Nat.pow_pos (by decide))]
+  simp only [Spec.decompressRef, hn, if_false] at h16 ⊢
+  rw [RefEq.decBits_cap_mono _ _ _ h16]
+
+/-- **every signature body this library accepts whose coefficients are within the reference's range (|x_i| ≤ 2047)
+    is accepted by the reference's decoder with the same vector**, the unread bytes being zero padding; coefficients
+    between 2048 and 5833 are the documented divergence (`reference_cap_gap`) -/
+theorem our_signatures_decode_at_the_reference (chk : Bool) (logn : Nat) (body : List Nat) (hb : ∀ b ∈ body, b < 256)
+    (x : List Int) (h : Codec.decompress chk body (2 ^ logn) = .ok (some x)) (hx : ∀ c ∈ x, c.natAbs ≤ 2047) :
+    ∃ used rest, body = used ++ rest ∧ RefSig.compDecode logn body = some (x, used.length) ∧ ∀ b ∈ rest, b = 0 := by
+  have hn : 2 ^ logn ≠ 0 := Nat.pos_iff_ne_zero.mp (Nat.pow_pos (by decide))
+  rw [Codec.decompress_eq_spec chk body hb (2 ^ logn) (Nat.pow_pos (by decide))] at h
+  have h95 : Spec.decompressRef 95 body (2 ^ logn) = some x := Res.ok.inj h
+  apply RefEq.compDecode_complete logn body hb x
+  simp only [Spec.decompressRef, hn, if_false] at h95 ⊢
+  exact RefEq.decBits_cap_small _ _ _ h95 hx
+
+/-- non-vacuity: the reference decodes the 2-coefficient body `[0x01, 0xC1, 0x40]` (+1, −2) consuming 3 bytes -/
+example : RefSig.compDecode 1 [0x01, 0xC1, 0x40] = some ([1, -2], 3) := by decide
 
 /-- what this side sends to the reference verifier is an honest signature of the hashed salt: the loop structure of
     `sign` as extracted (retry iff norm > bound; the salt buffer is filled once, before hashing, and not again on a
